@@ -1,3 +1,4 @@
 #!/bin/bash
+# run every given seed against the quick check of its own property (each under a time limit: a seeded change may hang a check)
 cd ${VERIF_HOME:-/verif}
-for d in "$@"; do s=$(basename $d); p=${s:0:3}; tools/seed_run.sh $d $p | cut -c1-400; done
+for d in "$@"; do s=$(basename $d); p=${s:0:3}; timeout 1800 tools/seed_run.sh $d $p | cut -c1-400; [ ${PIPESTATUS[0]} -eq 124 ] && echo "$s $p rc=124 TIMEOUT"; done
